@@ -4,6 +4,7 @@ import r_paren
 import r_arms
 import r_guard
 import r_interp
+import r_typaren
 import r_replace
 
 EXPLANATION = (
@@ -23,4 +24,4 @@ ASSUMPTIONS = ["Lua lexical facts: `--` starts a comment, `[[` opens a long brac
 def run(ctx):
     return [r_paren.rule_paren(ctx, "C01", parts=("minus",)), r_tree.rule_bracket(ctx, "C01"),
             r_tree.rule_semi(ctx, "C01"), r_tree.rule_sym(ctx, "C01"), r_tree.rule_collapse(ctx, "C01"), r_arms.rule_arms(ctx, "C01"),
-            r_guard.rule_guard(ctx, "C01"), r_replace.rule_strip_contract(ctx, "C01"), r_interp.rule_interp(ctx, "C01")]
+            r_guard.rule_guard(ctx, "C01"), r_replace.rule_strip_contract(ctx, "C01"), r_interp.rule_interp(ctx, "C01"), r_typaren.rule_typaren(ctx, "C01")]
